@@ -14,6 +14,7 @@ type heapNode struct {
 	kind int // 0 initial, 1 store, 2 havoc
 	prev *heapNode
 	keep func(addr Term) Term // havoc: condition under which the cell is unchanged
+	allocAt Term              // initial/havoc nodes: every reference stored in this version is <= allocAt
 }
 
 type closureInfo struct {
@@ -63,6 +64,7 @@ type State struct {
 	trace    []string
 	ghostInt map[string]Term // per-path ghost counters (e.g. sends per stream)
 	panicked bool
+	pendingAlloc string // alloc counter that bounds references in heap versions being created
 }
 
 func (st *State) fork() *State {
@@ -93,6 +95,7 @@ func (st *State) fork() *State {
 		n.ghostInt[k] = v
 	}
 	n.trace = append([]string(nil), st.trace...)
+	n.pendingAlloc = st.pendingAlloc
 	return n
 }
 
@@ -124,7 +127,7 @@ func (st *State) heapOf(hs map[string]*heapNode, sort string) *heapNode {
 	st.x.d.Declare(name, "(Array Ref "+sort+")")
 	h := st.x.initHeaps[sort]
 	if h == nil {
-		h = &heapNode{name: name, sort: sort}
+		h = &heapNode{name: name, sort: sort, allocAt: "alloc_0"}
 		st.x.initHeaps[sort] = h
 	}
 	hs[sort] = h
@@ -133,13 +136,21 @@ func (st *State) heapOf(hs map[string]*heapNode, sort string) *heapNode {
 
 func (st *State) instantiate(h *heapNode, addr Term) {
 	for n := h; n != nil; n = n.prev {
+		if n.kind == 1 {
+			continue
+		}
+		key := n.name + "|" + addr
+		if st.instd[key] {
+			return
+		}
+		st.instd[key] = true
 		if n.kind == 2 {
-			key := n.name + "|" + addr
-			if st.instd[key] {
-				return
-			}
-			st.instd[key] = true
 			st.assume(tImp(n.keep(addr), tEq(tSel(n.name, addr), tSel(n.prev.name, addr))))
+		}
+		if n.sort == "Ref" && n.allocAt != "" {
+			// heap invariant: a reference stored in this heap version existed when the version was created
+			// (cells of objects allocated later by callees are excluded: their content is only known through contracts)
+			st.assume(tImp("(<= "+tRid(addr)+" "+n.allocAt+")", "(<= "+tRid(tSel(n.name, addr))+" "+n.allocAt+")"))
 		}
 	}
 }
@@ -170,7 +181,7 @@ func (st *State) storeLeaf(sort string, addr, v Term) {
 func (st *State) havocHeap(sort string, keep func(addr Term) Term) {
 	h := st.heapOf(st.heaps, sort)
 	name := st.x.d.FreshConst(heapSym(sort), "(Array Ref "+sort+")")
-	st.heaps[sort] = &heapNode{name: name, sort: sort, kind: 2, prev: h, keep: keep}
+	st.heaps[sort] = &heapNode{name: name, sort: sort, kind: 2, prev: h, keep: keep, allocAt: st.pendingAlloc}
 }
 
 func (st *State) havocAll(keep func(addr Term) Term) {
@@ -188,9 +199,19 @@ func (st *State) havocAll(keep func(addr Term) Term) {
 
 // bumpAlloc models allocation by a callee: the counter may only grow.
 func (st *State) bumpAlloc() {
-	a := st.x.d.FreshConst("alloc", "Int")
+	a := st.pendingAlloc
+	if a == "" {
+		a = st.x.d.FreshConst("alloc", "Int")
+	}
+	st.pendingAlloc = ""
 	st.assume("(>= " + a + " " + st.alloc + ")")
 	st.alloc = a
+}
+
+// prepareAlloc declares the post-call allocation counter before the heap is
+// havocked, so that the new heap versions can refer to it.
+func (st *State) prepareAlloc() {
+	st.pendingAlloc = st.x.d.FreshConst("alloc", "Int")
 }
 
 func (st *State) newObject() Term {
